@@ -95,7 +95,7 @@ Section More.
     (F i, if negb (is_node (F i) p) then Err E_KEY else items_q p true (F i)).
   Proof.
     intros Hok. unfold items_step.
-    rewrite (ok_no_fail E _ (F i) (ok_load_where E s_all i Hok)).
+    rewrite (ok_not_blocked E _ (F i) (ok_load_where E s_all i Hok)).
     rewrite (load_where_full E _ i Hok).
     destruct (negb (is_node (F i) p)); [reflexivity|].
     now rewrite guarded_full.
@@ -104,7 +104,7 @@ Section More.
   Lemma items_sim_sh p : sim (fun i => items_step E i p true).
   Proof.
     intros i Hok Hwf. rewrite items_full_sh by assumption. simpl.
-    unfold items_step. rewrite (ok_no_fail E _ i Hok).
+    unfold items_step. rewrite (ok_not_blocked E _ i Hok).
     set (s1 := match p with [] => s_none | _ :: _ => s_lp i p end).
     assert (NSP E (load_where E s1 i) p) as N1.
     { subst s1. destruct p; [apply NSP_nil | now apply lp_post]. }
